@@ -3,7 +3,7 @@ From Verif Require Import Bytes Base64 Scram AuthLoop Sasl Crypto SaslRun.
 Require Extraction.
 Require Import ExtrOcamlBasic.
 Extraction "model.ml"
-  SaslRun.c15_run SaslRun.c15_retry SaslRun.run_auth SaslRun.run_auth_seq SaslRun.ref_server_run SaslRun.post_records SaslRun.gen_cfg SaslRun.table_oracle
+  SaslRun.c15_run SaslRun.c15_retry SaslRun.c15_multi SaslRun.run_auth SaslRun.run_auth_seq SaslRun.ref_server_run SaslRun.post_records SaslRun.gen_cfg SaslRun.table_oracle
   Scram.cfg_fixed Scram.cfg_old Scram.escape_name Scram.unescape_name Scram.go_atoi Scram.go_b64dec
   Crypto.sha1 Crypto.sha256 Crypto.md5 Crypto.hmac_sha1 Crypto.hmac_sha256 Crypto.hmac_md5
   Scram.pbkdf2_key Scram.Hi Base64.b64enc.
